@@ -71,12 +71,16 @@ func (w *Weekly) Contains(t time.Time) (ok bool) {
 	wd := t.Weekday()
 	dr := w.days[wd]
 
-	// Calculate the offset of the day range.
+	// Calculate the offset of the day range from the wall-clock time of day.
 	//
-	// NOTE: Do not use [time.Truncate] since it requires UTC time zone.
-	y, m, d := t.Date()
-	day := time.Date(y, m, d, 0, 0, 0, 0, w.location)
-	offset := t.Sub(day)
+	// NOTE: Do not use [time.Truncate] since it requires UTC time zone, and do
+	// not use the time elapsed since the local midnight, since it differs from
+	// the wall-clock time on the days with time zone offset transitions.
+	hour, minute, sec := t.Clock()
+	offset := time.Duration(hour)*time.Hour +
+		time.Duration(minute)*time.Minute +
+		time.Duration(sec)*time.Second +
+		time.Duration(t.Nanosecond())
 
 	return dr.contains(offset)
 }
